@@ -55,10 +55,77 @@ def crafted_setup(kind):
     return setup
 
 
+def visitors(seed, server, clients):
+    """one long-lived server port, several clients of different capabilities, handshakes interleaved: every connection must
+    negotiate the meet of ITS client and the server's configuration, whoever visited before or is connecting at the same time.
+    server = (version, minor, sub, funcs); clients = [(version, minor, sub, funcs, start_delay)]"""
+    import anyio
+    from sim import Sim, quant
+    from nintendo.nex import prudp
+    rng = random.Random(seed)
+    bad, reports, srv_reports, echoes = [], {}, {}, {}
+    def mk(t):
+        return ps.Cfg(version=t[0], v0=(0, 1, 1), minor_version=t[1], max_substream=t[2], supported_functions=t[3], fragment_size=7,
+                      resend_timeout=0.5, resend_limit=2).settings()
+    ss = mk(server)
+    with Sim(seed) as sim:
+        sim.install_factories()
+        sim.net.fate = lambda tx: [quant(0.004 + 0.002 * ((tx.n * 7919 + seed) % 23))]     # handshakes interleave
+        async def handler(client):
+            srv_reports[client.remote_address()] = (client.minor_ver, client.max_substream_id, client.supported_functions)
+            sub = client.max_substream_id
+            try:
+                while True:
+                    d = await client.recv(sub)
+                    await client.send(b"echo:" + d, sub)
+            except anyio.EndOfStream:
+                pass
+        async def visitor(i, t):
+            await anyio.sleep(quant(t[4]))
+            try:
+                async with prudp.connect(mk(t), ps.SERVER[0], ps.SERVER[1]) as c:
+                    reports[i] = (c.local_address(), (c.minor_ver, c.max_substream_id, c.supported_functions))
+                    sub = c.max_substream_id
+                    await c.send(b"visitor%d" % i, sub)
+                    with anyio.move_on_after(3):
+                        echoes[i] = await c.recv(sub)
+                    try:
+                        await c.send(b"beyond", sub + 1)
+                        echoes[(i, "beyond")] = "accepted"
+                    except ValueError:
+                        pass
+                    await anyio.sleep(quant(rng.choice([0.01, 0.2, 0.6])))
+            except Exception as e:
+                reports[i] = (None, "failed: %r" % (e,))
+        async def main():
+            async with prudp.serve(handler, ss, ps.SERVER[0], ps.SERVER[1]):
+                async with anyio.create_task_group() as tg:
+                    for i, t in enumerate(clients):
+                        tg.start_soon(visitor, i, t)
+        sim.run(main())
+    for i, t in enumerate(clients):
+        want = (0, 0, 0) if t[0] == 0 else (min(t[1], server[1]), min(t[2], server[2]), t[3] & server[3])
+        addr, pc = reports.get(i, (None, "did not finish"))
+        if addr is None:
+            bad.append("visitor %d %r on server %r: handshake %s" % (i, t[:4], server, pc)); continue
+        psv = srv_reports.get(addr)
+        if pc != want or psv != want:
+            bad.append("visitor %d %r on server %r (after/among %d other visitors): client reports %r, server reports %r, expected min/min/AND %r"
+                       % (i, t[:4], server, len(clients) - 1, pc, psv, want))
+        elif echoes.get(i) != b"echo:visitor%d" % i:
+            bad.append("visitor %d %r: substream %d did not carry its data (%r)" % (i, t[:4], want[1], echoes.get(i)))
+        if echoes.get((i, "beyond")):
+            bad.append("visitor %d %r: send beyond the negotiated substream %d was accepted" % (i, t[:4], want[1]))
+    return bad
+
+
 def work(args):
     idx, kind, c, s, seed = args
     try:
         rng = random.Random(seed)
+        if kind == "visitors":
+            bad = visitors(seed, s, c)
+            return idx, kind, repr(c), repr(s), seed, bad, None, None
         if kind == "grid":
             (cm, cs_, cf), (sm, ss_, sf) = c, s
             cfg = ps.Cfg(version=1, max_substream=cs_, minor_version=cm, supported_functions=cf, fragment_size=7)
@@ -160,6 +227,16 @@ def cases(rng, quick):
     for c in lt:
         for s in (lt if not quick else rng.sample(lt, 3)):
             out.append(("lite", c, s))
+    # one server port visited by several clients (weak ones first), handshakes interleaved
+    for _ in range(6 if quick else 80):
+        sv = (2, rng.choice([3, 6]), rng.choice([1, 3]), rng.choice([0xFF, 0xFFFFFE, 0xA5A5A4]))
+        vis = []
+        for j in range(rng.randint(3, 6)):
+            weak = j < 2 and rng.random() < 0.7
+            v = 0 if (weak and rng.random() < 0.5) else 1
+            vis.append((v, 0 if weak else rng.choice(MINORS), 0 if weak else rng.choice(SUBS), (rng.choice([0, 2]) if weak else rng.choice(MASKS)),
+                        round(j * rng.choice([0.0, 0.003, 0.05, 0.4]), 6)))
+        out.append(("visitors", tuple(vis), sv))
     for k in ["syn-identity", "con-identity", "syn-sub+1", "syn-minor+1", "syn-extra-bit", "con-sub-1", "con-minor-1", "con-minor+1", "con-mask"]:
         out.append(("crafted", k, None))
     return out
@@ -170,7 +247,8 @@ def run(ctx):
     cs = cases(ctx.rng, quick)
     ctx.rule = ("handshakes between real endpoints for (minor 0..6) x (max substream 0..3) x (function mask in {0,1,0x0F,0xA5A5A5,0xFFFFFF}) "
                 "for client and server (all 19600 pairs in the thorough tier; every triple on both sides + corners in quick), all 9 prudp.version "
-                "pairs, lite, and 7 crafted SYN/CONNECT acks; each UDP session is replayed through the Lean L1 model (every datagram byte- and "
+                "pairs, lite, 7 crafted SYN/CONNECT acks, and sequences of 3..6 clients of different capabilities (weak ones first, v0 among them) visiting one "
+                "dual-stack server port with interleaved handshakes (each must negotiate the meet of its own and the server's configuration); each UDP session is replayed through the Lean L1 model (every datagram byte- and "
                 "tick-exact); distinct non-trivial = distinct (kind, client, server) configurations")
     jobs = [(i, k, c, s, ctx.rng.getrandbits(32)) for i, (k, c, s) in enumerate(cs)]
     drv = ctx.driver("C02")
